@@ -226,7 +226,7 @@ def targeted(ctx):
             drop=['Drawdown Parameter'], resmodel=4, enduse=[1, 2, 31, 1, 2][j], plant=[1, 9, 2, 3, 9][j], life=rnd.choice([5, 10, 20]))
     for j, eu in enumerate([1, 2, 31, 52] if ctx.quick else configs.ENDUSES):
         pl = [2, 9, 1, 4][j % 4] if eu != 2 else 9
-        add(f'addons-eu{eu}', ADDON, enduse=eu, plant=pl, econ=1 + j % 3, cy=rnd.choice([1, 2, 4]))
+        add(f'addons-eu{eu}', ADDON, enduse=eu, plant=pl, econ=1 + j % 3, cy=1 if j % 2 == 0 else rnd.choice([2, 4]))
         add(f'sdac-eu{eu}', [('Do S-DAC-GT Calculations', 'True')], enduse=eu, plant=pl, econ=1 + (j + 1) % 3)
     add('addons-zero-totals', ADDON[:2] + [('AddOn CAPEX 1', 0), ('AddOn OPEX 1', 0), ('AddOn Profit Gained 1', 0.4)], enduse=1, plant=2, cy=1)
     add('addons+sdac', ADDON + [('Do S-DAC-GT Calculations', 'True')], enduse=1, plant=1, econ=3, cy=3)
@@ -235,9 +235,10 @@ def targeted(ctx):
     return T
 
 
-# near-duplicates of other shipped examples as far as the report writer is concerned: thorough tier only
-QUICK_SKIP = {'Fervo_Project_Cape-2.txt', 'Fervo_Project_Cape-3.txt', 'example_SHR-2.txt', 'example_overpressure2.txt',
-              'example_multiple_gradients-2.txt', 'example_PTC.txt', 'example9.txt', 'example1_outputunits.txt'}
+# shipped examples of the quick tier (the others add no report branch beyond the targeted configurations: thorough tier)
+QUICK_EXAMPLES = {'Wanju_Yuan_Closed-Loop_Geothermal_Energy_Recovery.txt', 'Fervo_Norbeck_Latimer_2023.txt', 'example1_addons.txt',
+                  'S-DAC-GT.txt', 'example3.txt', 'example_overpressure.txt', 'example_multiple_gradients.txt', 'example10_HP.txt',
+                  'example11_AC.txt', 'example13.txt', 'example5.txt', 'example2.txt'}
 
 
 def build_inputs(ctx):
@@ -245,7 +246,7 @@ def build_inputs(ctx):
     lifetime / construction-year / time-step sweeps, random configurations, runs with output-unit requests."""
     rnd = ctx.rng
     out = [(c['name'], c['input']) for c in corpus('report')]
-    out += [(n, t) for n, t in configs.example_texts(ctx, slow=not ctx.quick) if not (ctx.quick and n in QUICK_SKIP)]
+    out += [(n, t) for n, t in configs.example_texts(ctx, slow=not ctx.quick) if not ctx.quick or n in QUICK_EXAMPLES]
     out += targeted(ctx)
     ex1 = dict(configs.example_texts(ctx)).get('example1.txt', '')
     for i in range(ctx.n(2, 24)):
@@ -254,7 +255,7 @@ def build_inputs(ctx):
         cells = [(eu, pl) for eu in configs.ENDUSES for pl in (configs.ELEC_PLANTS if eu != 2 else configs.HEAT_PLANTS)]
         ps = [configs.synthetic(rnd, enduse=eu, plant=pl, econ=1 + j % 3, resmodel=rnd.choice([3, 4]),
                                 life=rnd.choice([2, 5, 10, 20, 25]), tspy=rnd.choice([1, 2, 4])) for j, (eu, pl) in enumerate(cells)]
-        ps += configs.grid(ctx, 6, cover_cells=False)
+        ps += configs.grid(ctx, 3, cover_cells=False)
         sweep = [(1, 1), (1, 14), (2, rnd.randint(2, 13)), (3, rnd.randint(2, 13)), (7, 1), (30, rnd.randint(2, 13)), (100, 1),
                  (100, rnd.randint(2, 14))]
     else:
@@ -533,7 +534,14 @@ def report_correspondence(ctx, spec, inputs, proofs_ok, batch=160):
     ctx.note(f'report check: {stats["runs"]} runs ({stats["rejected"]} inputs rejected by the simulator), {stats["numeric_lines"]} numeric lines, '
              f'{stats["tables"]} tables, {stats["cells"]} figures, {nterms} distinct Coq evaluations; '
              f'{sum(1 for x in executed if isinstance(x, int))} of {len(nodes)} specified lines exercised; simulator {tsim:.0f} s, Coq {tcoq:.0f} s')
-    unex = [(n['line'], gen.label_of(n)[:40]) for i, (c, n) in sorted(nodes.items()) if i not in executed]
+    def why(c):
+        conds = [(x[0], x[1]) for x in c if x[0] in ('if', 'else')]
+        if any(('else', s) in conds for k, s in conds if k == 'if'):
+            return 'dead code: its condition repeats an earlier branch of the same if/elif chain'
+        if any('TOUGH2_SIMULATOR' in s and k == 'if' for k, s in conds):
+            return 'needs the external TOUGH2 executable (not available offline)'
+        return 'not reached'
+    unex = [(n['line'], gen.label_of(n)[:40], why(c)) for i, (c, n) in sorted(nodes.items()) if i not in executed]
     ctx.count('spec-line-coverage', exercised=sum(1 for i in nodes if i in executed), total=len(nodes))
     if unex:
         ctx.note(f'specified lines no run exercised ({len(unex)} of {len(nodes)}): {unex}')
